@@ -2,6 +2,7 @@
 """Install a confirmed seeded change into /verif/seeded/<name>/ (patch.diff, demo.py, notes.md, meta.json)."""
 import json, os, shutil, sys
 src, pid, name, needs = sys.argv[1], sys.argv[2], sys.argv[3], sys.argv[4]
+history = sys.argv[5] if len(sys.argv) > 5 else None
 dst = os.path.join(os.path.dirname(os.path.abspath(__file__)), "seeded", name)
 os.makedirs(dst, exist_ok=True)
 for f in ("patch.diff", "demo.py", "notes.md"):
@@ -23,5 +24,7 @@ meta = {
     "checks_that_report_it": sorted(p for p, v in ev["checks"].items() if v["exit"] == 1),
     "first_report": {p: (v["first"][0].strip() if v["first"] else "") for p, v in ev["checks"].items() if v["exit"] == 1},
 }
+if history:
+    meta["history"] = history
 json.dump(meta, open(os.path.join(dst, "meta.json"), "w"), indent=1)
 print(name, meta["checks_that_report_it"])
